@@ -4,34 +4,38 @@ from .. import hist as H, histgen as G
 
 CLAIM = True
 LEVEL_TEXT = ("Theorems (Lean 4) about an executable, statement-by-statement model of System.__init__/add_source/add_comp/"
-              "change_comp/del_comp/set_sys_phases/set_comp_phases (graph with rustworkx index re-use + six registries): the "
-              "freshly constructed system is well-formed; every call, accepted or rejected, preserves well-formedness (names "
-              "distinct, rail names distinct, names and rails disjoint, roots = Sources, loads childless, only a PMux has several "
-              "inputs, at most one PMux, every link type-legal, registries keyed by exactly the live names, every recorded "
-              "PMux input resolves to a feeding component); hence every reachable state is well-formed. PARTIAL: proved under "
-              "the decidable hypothesis `Safe s op` that excludes the call patterns for which the code as it stands violates "
-              "the property (findings F16-F21, F32, F33); for each of them the full statement is refuted on a concrete witness "
-              "in Lean and the same witness history is re-run on the implementation on every run (KNOWN-FINDING). The model is "
-              "tied to the code by differential testing of random edit histories after every call.")
-LEVEL_NOTE = ("wf_step / wf_reachable are `_partial` (hypothesis Safe); rustworkx (index allocation, descendants, "
-              "multigraph=False) is modelled, not verified; correspondence is testing, not proof.")
+              "change_comp/del_comp/set_sys_phases/set_comp_phases (rustworkx graph with index re-use and cycle check + the six "
+              "registries): the freshly constructed system is well-formed; EVERY call, accepted or rejected and whatever its "
+              "arguments, preserves well-formedness (names distinct, rail names distinct, names and rails disjoint, roots = "
+              "Sources, loads childless, only a PMux has several inputs, at most one PMux, every link type-legal, registries "
+              "keyed by exactly the live names, the recorded PMux inputs resolve to exactly its feeding components); hence every "
+              "reachable state is well-formed. Full strength: no hypothesis on the calls (the nine call patterns for which the "
+              "property was false - findings F16-F21, F32-F34 found by this check - are fixed in /repo and kept as regressions "
+              "in Lean and in corpus/C14). The model is tied to the code by differential testing of random edit histories "
+              "after every call.")
+LEVEL_NOTE = ("proved for all histories; rustworkx (index allocation, descendants, multigraph=False, check_cycle) is modelled, not "
+              "verified; the tie between model and system.py is testing (correspondence after every call), not proof.")
 MODULE = "SysLoss.Props.C14"
 THEOREMS = [
-    "SysLoss.C14.sane_init", "SysLoss.C14.sane_step", "SysLoss.C14.wf_init_partial", "SysLoss.C14.wf_step_partial",
-    "SysLoss.C14.wf_reachable_partial", "SysLoss.C14.wf_init_full_fails", "SysLoss.C14.wf_step_full_fails",
-    "SysLoss.C14.safe_nonvacuous",
+    "SysLoss.C14.legal_init", "SysLoss.C14.legal_step", "SysLoss.C14.wf_init", "SysLoss.C14.wf_step",
+    "SysLoss.C14.wf_reachable", "SysLoss.C14.wf_always", "SysLoss.C14.wf_nonvacuous",
+    "SysLoss.C14.regression_F16", "SysLoss.C14.regression_F17", "SysLoss.C14.regression_F18",
+    "SysLoss.C14.regression_F19", "SysLoss.C14.regression_F19_dup", "SysLoss.C14.regression_F20_F21",
+    "SysLoss.C14.regression_F32", "SysLoss.C14.regression_F33_F34",
 ]
 RULE = ("random edit histories of 5-60 calls (add_source/add_comp/change_comp/del_comp, a few phase settings) over 12 names and "
         "6 rail names drawn from the structure the previous calls left (collisions, re-use after deletion, unchanged-name "
-        "replacement, parents by rail, both del_childs, ~35% crafted rejections); after EVERY call: outcome class and the "
-        "structure reconstructed from params()/tree()/save() compared with the Lean model, and C14's clauses evaluated on the "
-        "reconstruction; non-trivial = history with >= 3 accepted and >= 1 rejected edit; distinct by history")
+        "replacement, parents by rail, renames/deletions of PMux inputs, both del_childs, ~35% crafted rejections); after EVERY "
+        "call: outcome class and the structure reconstructed from params()/tree()/save() compared with the Lean model, and "
+        "C14's clauses evaluated on the reconstruction; non-trivial = history with >= 3 accepted and >= 1 rejected edit; "
+        "distinct by history")
 ASSUMPTIONS = ["the structure is reconstructed from public reports only: params() (names, types, one distinguishing parameter), "
                "tree() text (all links), save() JSON (registries in insertion order, ordered PMux inputs) or the exception it raises",
                "`attrs['nodes']` and `attrs['pnames']` are not observable directly; they are checked through their effect on "
                "tree()/save() and on later calls"]
-EXPLANATION = ("theorems: SysLoss.Props.C14 (WF preserved by every call under Safe; refuted without it on witnesses); "
-               "correspondence: Lean `hist` run vs the real System after every call; oracle: C14's clauses on the reconstruction")
+EXPLANATION = ("theorems: SysLoss.Props.C14 (WF preserved by every call; reachable states WF); correspondence: Lean `hist` run vs "
+               "the real System after every call; oracle: C14's clauses on the reconstruction; corpus/C14: the minimal histories "
+               "of the fixed findings F16-F21, F32, F33 run first on every run")
 
 CLAUSE_PRIORITY = ["reports_raise", "names_distinct", "rails_distinct", "names_rails_disjoint", "registries_exact",
                    "roots_are_sources", "only_mux_multi_parent", "loads_childless", "links_accepted", "one_mux",
@@ -200,23 +204,34 @@ def run_witnesses(ctx):
                 ctx.notes.append("witness of %s no longer fails" % k["id"])
 
 
+def run_corpus(ctx):
+    import glob, os
+    from ..check import VERIF
+    for f in sorted(glob.glob(os.path.join(VERIF, "corpus", ctx.prop, "*.json"))):
+        h = json.load(open(f))["case"]["history"]
+        r = H.replay(h, stop_on_wf=True)
+        ctx.stats["corpus_runs"] += 1
+        check_history(ctx, r, "corpus:" + os.path.basename(f))
+
+
 def run(ctx):
+    run_corpus(ctx)
     run_witnesses(ctx)
-    cfg = G.Cfg(p_reject=0.35, p_unsafe=0.02, w_phase=0.05)
-    for _ in range(ctx.n(170, 9000)):
+    cfg = G.Cfg(p_reject=0.35, p_unsafe=1.0, w_phase=0.05, p_mux=0.3)
+    for _ in range(ctx.n(380, 9000)):
         r = gen_history(ctx, cfg)
         shape_stats(ctx, r, "main")
         check_history(ctx, r, "main")
     calls = sum(v for k, v in ctx.stats.items() if k.startswith("main:call:"))
     trig = ctx.stats.get("main:open-finding-trigger-calls", 0)
     ctx.stats["main:open-finding-trigger-share-permille"] = int(1000 * trig / max(calls, 1))
-    # a small dedicated stream per open finding, so the main stream need not contain their triggers
+    # a small dedicated stream per formerly failing call pattern (regression pressure on the fixed findings)
     for fid in FINDING_STREAMS:
         for _ in range(ctx.n(4, 60)):
             r = trigger_history(ctx, fid)
             ctx.stats["stream:%s:histories" % fid] += 1
             check_history(ctx, r, "finding:" + fid)
-    # F33: the constructor itself
+    # F33: the constructor itself (now a ValueError on both sides)
     for _ in range(ctx.n(2, 10)):
         r = H.Run(G.gen_init(ctx.rng, unsafe=True))
         check_history(ctx, r, "finding:F33")
